@@ -306,7 +306,7 @@ func (in InitM) Source() string {
 // ---- values, traversals, raw recipes ----
 
 var strPool = []string{"", "plain", "with \"quotes\"", "back\\slash", "new\nline", "${interp}", "%{directive}", "$${escaped", "ünïcode ✓", "tab\t", "trailing$", "%", "$", "a${b}c%{d}e", "\r\n", "it's", "tag\U000E0001char", "\U0010FFFF", "zero\u200bwidth", "bell\a", "😀"}
-var keyPool = []string{"k", "a b", "for", "1x", "k2", "ü", "with.dot", "null", "\ufeffbom"}
+var keyPool = []string{"-", "-v", "--force", "k", "a b", "for", "1x", "k2", "ü", "with.dot", "null", "\ufeffbom"}
 
 func genV(r *rnd, d int) *V {
 	switch k := r.n(11); {
